@@ -108,7 +108,8 @@ Lemma step_line g first rw s : is_separator g = false -> group_cells g = first :
       | Some n => (flush s, Some n, Some [])
       | None => (sheets s, cur_name s, cur_rows s)
       end in
-    let rows2 := match name1, rows1 with Some _, Some a => if any_some rw then Some (a ++ [rw]) else rows1 | _, _ => rows1 end in
+    let blank_kept := match first, rows1 with None, Some (_ :: _) => true | _, _ => false end in
+    let rows2 := match name1, rows1 with Some _, Some a => if any_some rw || blank_kept then Some (a ++ [rw]) else rows1 | _, _ => rows1 end in
     {| sheets := put name1 rows2 sheets1; cur_name := name1; cur_rows := rows2 |}.
 Proof.
   intros Hs Hc. unfold step. rewrite not_comment, no_inline_comment, group_of_line, Hs. fold (group_cells g). rewrite Hc. destruct first; reflexivity.
@@ -120,12 +121,13 @@ Proof. destruct (map pad cs); reflexivity. Qed.
 Lemma step_sheet n s : n <> [] -> cell_ok n ->
   step s (sheet_line n) = {| sheets := put (Some n) (Some []) (flush s); cur_name := Some n; cur_rows := Some [] |}.
 Proof. intros Hne H. unfold sheet_line. rewrite (step_line (pad n) (Some n) [] s (sep_pad n) (sheet_cells n Hne H)). reflexivity. Qed.
-Definition add_row (a : list row) (cs : list str) : list row := if any_some (map cellopt cs) then a ++ [map cellopt cs] else a.
+Definition add_row (a : list row) (cs : list str) : list row :=
+  if any_some (map cellopt cs) || match a with _ :: _ => true | [] => false end then a ++ [map cellopt cs] else a.
 Lemma step_data cs s n a : Forall cell_ok cs -> cur_name s = Some n -> cur_rows s = Some a ->
   step s (data_line cs) = {| sheets := put (Some n) (Some (add_row a cs)) (sheets s); cur_name := Some n; cur_rows := Some (add_row a cs) |}.
 Proof.
   intros H Hn Ha. unfold data_line. rewrite (step_line _ None (map cellopt cs) s (sep_data cs) (data_cells cs H)). rewrite Hn, Ha. unfold add_row.
-  destruct (any_some (map cellopt cs)); reflexivity.
+  destruct (any_some (map cellopt cs)); destruct a; reflexivity.
 Qed.
 
 (* keys and put *)
